@@ -319,6 +319,20 @@ def r4_fallback(ctx):
             pos = any(re.fullmatch(rf"eq\('{code}', {p_tb}\)|eq\({p_tb}, '{code}'\)", a) for a in lits)
             neg_other = any(re.fullmatch(rf"not eq\('{other}', {p_tb}\)|not eq\({p_tb}, '{other}'\)", a) for a in lits)
             found[code] = (n, arg_ok and (pos or neg_other), bool_key(g))
+    # the scoring function chosen first and called afterwards:  fn = borda_scores / first_place_votes ; ... fn(profile)
+    for n in astx.walk_own(f.node):
+        if isinstance(n, ast.Assign) and len(n.targets) == 1 and isinstance(n.targets[0], ast.Name) and isinstance(n.value, ast.Name) and n.value.id in want.values():
+            fv = n.targets[0].id
+            calls_fv = [c for c in astx.calls_in(f.node) if astx.is_name(c.func, fv)]
+            if not calls_fv or any(not (c.args and astx.is_name(c.args[0], p_prof)) for c in calls_fv):
+                continue
+            g = N.conj(astx.path_condition(f.node, n, pm))
+            lits = _all_literals(g)
+            code = [k for k, v in want.items() if v == n.value.id][0]
+            other = [k for k in want if k != code][0]
+            pos = any(re.fullmatch(rf"eq\('{code}', {p_tb}\)|eq\({p_tb}, '{code}'\)", a) for a in lits)
+            neg_other = any(re.fullmatch(rf"not eq\('{other}', {p_tb}\)|not eq\({p_tb}, '{other}'\)", a) for a in lits)
+            found.setdefault(code, (n, pos or neg_other, bool_key(g)))
     for code in want:
         if code not in found:
             ctx.violated(f, f.node, f"'{code}' tiebreak uses {want[code]}(profile)", f"no call to {want[code]} in tiebreak_set")
@@ -363,6 +377,8 @@ def r4_fallback(ctx):
                   bool_key(g), f"fallback `{astx.u(c)[:80]}` under `{bool_key(g)}`: guard={tie_guard} random={is_random} rebinds={rebinds}")
     # the returned value is that ranking on every path
     rets = [n for n in astx.walk_own(f.node) if isinstance(n, ast.Return)]
+    # (a return of the random branch itself - the permutation is strict, nothing is left to re-break, C17.R3 - is not this clause's)
+    rets = [n for n in rets if not any(re.fullmatch(rf"eq\('random', {p_tb}\)|eq\({p_tb}, 'random'\)", a) for a in _all_literals(N.conj(astx.path_condition(f.node, n, pm))))] or rets
     ctx.check(len(rets) == 1 and fb and astx.u(rets[0].value) == astx.u(astx.bind_args(fb[0], tr.params).get(tr.params[0])),
               f, rets[0] if rets else f.node, "tiebreak_set returns the (possibly re-broken) ranking", "",
               "the returned ranking is not the one the fallback re-breaks")
